@@ -6,6 +6,7 @@
 -/
 import DisjointImpls.Lemmas.Refine
 import DisjointImpls.Lemmas.ExpandLemmas
+import DisjointImpls.Lemmas.ExpandItems
 import DisjointImpls.Props.C11
 namespace DI
 
@@ -136,5 +137,354 @@ theorem C01_expandOK_wildcard_counterexample : ExOK.checkFirst [ExOK.d3a, ExOK.d
     (fun g hs m => g.2.2.length == 2 && expandWF g && !wildcardsFixed g && !expandOKB g (thetasOf g) hs m &&
       XOK.checkMain false g.1 (XOK.keysOf g.2.1.idents) m) = true := by with_unfolding_all decide
 end ExpandExamples
+
+/-! ## Item-level fidelity of the generators in trait mode (`Lemmas/ExpandItems.lean`)
+
+The trees are read with the positional accessors of the checker (`XOK.kid t i` = child `i`, the dummy node `?` when
+missing). Children of an `ItemTrait`: 0 attributes, 1 visibility, 2 `unsafe`, 3 `auto`, 4 restriction, 5 name, 6 generics
+(`Generics [<, parameters, >, where-clause]`), 7 `:`, 8 supertraits, 9 items. Children of an `ItemImpl`: 0 attributes,
+1 `default`, 2 `unsafe`, 3 generics, 4 trait reference, 5 self type, 6 items. -/
+
+/-- (1) THE HELPER TRAIT IS THE USER'S TRAIT. If `helperTraitOfTrait tr idx nkeys = some ht` then `ht` has the trait's item
+    list verbatim (child 9: names, signatures, DEFAULT values / bodies, item generics, attributes), its supertraits and
+    the `:` (8, 7), its attributes, `unsafe`, `auto` and restriction (0, 2, 3, 4); it is `pub`, named `_<Trait><idx>`, and its
+    generics are `helperGenerics` of the trait's. For generics of the shape `syn` produces (`genericsShaped_it`,
+    executable) that means: the `<` `>` tokens and the WHERE-CLAUSE are the trait's, and the parameter list is
+    `helperParams_it`: the trait's lifetime parameters, then `nkeys` fresh type parameters `_ŠČn: ?Sized, _ŠČ(n+1): ?Sized, …`
+    (`n` = number of parameters of the trait), then the trait's type and const parameters — the trait's own parameters
+    are the very nodes of the definition, so with their bounds and defaults. No side condition besides the shape. -/
+theorem C01_helper_trait_keeps_items (tr : T) (idx nkeys : Nat) (ht : T)
+    (h : helperTraitOfTrait tr idx nkeys = some ht) :
+    XOK.kid ht 9 = XOK.kid tr 9 ∧ traitItemsOf_it ht = traitItemsOf_it tr ∧
+    traitDefaultAssoc_it ht = traitDefaultAssoc_it tr ∧
+    XOK.kid ht 8 = XOK.kid tr 8 ∧ XOK.kid ht 7 = XOK.kid tr 7 ∧
+    XOK.kid ht 0 = XOK.kid tr 0 ∧ XOK.kid ht 2 = XOK.kid tr 2 ∧ XOK.kid ht 3 = XOK.kid tr 3 ∧ XOK.kid ht 4 = XOK.kid tr 4 ∧
+    XOK.kid ht 1 = .node "Visibility::Public" [] [] ∧
+    traitName_inh ht = genIdentStr (traitName_inh tr) idx ∧
+    XOK.kid ht 6 = helperGenerics (XOK.kid tr 6) nkeys ∧
+    (genericsShaped_it (XOK.kid tr 6) = true →
+      traitParams_inh ht = helperParams_it (traitParams_inh tr) nkeys ∧
+      XOK.kid (XOK.kid ht 6) 0 = XOK.kid (XOK.kid tr 6) 0 ∧ XOK.kid (XOK.kid ht 6) 2 = XOK.kid (XOK.kid tr 6) 2 ∧
+      XOK.kid (XOK.kid ht 6) 3 = XOK.kid (XOK.kid tr 6) 3) := by
+  obtain ⟨a, v, u, au, r, x, g, c, sup, items, rfl, rfl⟩ := helperTraitOfTrait_inv_it h
+  have hit : traitItemsOf_it (.node "ItemTrait" [] [a, .node "Visibility::Public" [] [], u, au, r, tIdent (genIdentStr x idx),
+      helperGenerics g nkeys, c, sup, items]) =
+      traitItemsOf_it (.node "ItemTrait" [] [a, v, u, au, r, .node "Ident" [x] [], g, c, sup, items]) := by
+    rw [traitItemsOf_node_it, traitItemsOf_node_it]
+  refine ⟨rfl, hit, by simp only [traitDefaultAssoc_it, hit], rfl, rfl, rfl, rfl, rfl, rfl, rfl, rfl, rfl, ?_⟩
+  intro hs
+  obtain ⟨h1, h2, h3, h4, _⟩ := helperGenerics_shaped_it nkeys (g := g) hs
+  exact ⟨h1, h2, h3, h4⟩
+
+/-- (2) EVERY HELPER IMPL IS ITS MEMBER. If `helperImpls idx g = some hs` for a well-formed (`expandWF`) family of trait
+    mode (`inherentFamily_inh g = false`: the first block has a trait path) then there is one helper impl per member and
+    the `i`-th helper impl is the `i`-th member block with ONLY its trait reference (child 4) changed: attributes, `default`,
+    `unsafe`, generics with their where-clause, self type and the ITEM LIST (child 6, `implItems`) are the member's.
+    The trait reference: same leading `::` and leading segments; the last segment is renamed `_<name><idx>` and its arguments
+    are the member's row (`rowArgs`: a payload as a generic argument, a wildcard as the projection of the key) followed by the
+    member's own trait arguments. -/
+theorem C01_helper_impls_keep_items (idx : Nat) (g : T × ABG × List Blk) (hs : List T)
+    (hh : helperImpls idx g = some hs) (htr : inherentFamily_inh g = false) (hwf : expandWF g = true) :
+    hs.length = g.2.2.length ∧
+    ∀ (i : Nat) (h1 : i < g.2.2.length) (h2 : i < hs.length),
+      (∀ j, j ≠ 4 → XOK.kid hs[i] j = XOK.kid g.2.2[i].item j) ∧
+      implItems hs[i] = implItems g.2.2[i].item ∧
+      ∃ mp hp, implTraitPath g.2.2[i].item = some mp ∧ XOK.traitPathOf hs[i] = some hp ∧
+        pathLead hp = pathLead mp ∧ initSegsOf hp = initSegsOf mp ∧
+        (∃ x, lastSegIdentOf mp = some x ∧ lastSegIdentOf hp = some (genIdentStr x idx)) ∧
+        XOK.segArgs (XOK.lastSeg hp) =
+          rowArgs g.2.1.idents (g.2.1.payloads.getD i []) ++ XOK.segArgs (XOK.lastSeg mp) := by
+  have hpl := payloads_length_of_wf_it hwf
+  obtain ⟨hlen, hget⟩ := helperImpls_trait_get_it hh htr
+  refine ⟨by rw [hlen, hpl]; exact Nat.min_self _, ?_⟩
+  intro i h1 h2
+  have h1' : i < g.2.1.payloads.length := by rw [hpl]; exact h1
+  obtain ⟨k1, k2, mp, hp, e1, e2, _, e4, e5, e6, e7⟩ := helperImpl_trait_read_it (hget i h1 h1' h2)
+  refine ⟨k1, k2, mp, hp, e1, e2, e4, e5, e6, ?_⟩
+  rw [e7]
+  simp [List.getD_eq_getElem?_getD, List.getElem?_eq_getElem h1']
+
+/-- (3) EVERY ITEM OF THE MAIN IMPL DELEGATES TO THE HELPER TRAIT, AND THERE IS NOTHING ELSE. If
+    `mainImplOfTrait tr idx g = .ok m` then, with `tp` the trait path of the family's first block (`Trait<args>`) and
+    `href = _<Trait><idx><lifetime args, projections of the keys, other args>` (`mainHrefOf_it`):
+    * `href` is the very helper reference the main impl's where-clause bounds `Self` by (`mainHref_inh m`);
+    * the resolved trait items `items` are the trait's own items when `tp` has no `<…>`, and otherwise the trait's items
+      under `sbT am` (`C16_trait_param_replacement`) where `am = mainArgMap_it tr tp` zips the trait's parameters with `args`;
+    * the main impl has exactly one item per trait item, in the order of the trait definition, and item `i` is
+      `delegates_it href items[i]`: the same kind and name, no attributes, no visibility, for a const its type and the value
+      `<Self as href>::NAME`, for an associated type the type `<Self as href>::Name`, for a function the whole resolved
+      signature and the body `{ <Self as href>::name(args…) }`; a trait item WITH a default is delegated like every other
+      (its default is not copied: the default that runs is the helper trait's copy of it, by (1) the user's);
+    * (names) when the trait item's name is an identifier (`traitItemNamed_it`, executable) the generated item has the
+      namespace and name of the ORIGINAL trait item.
+    No side condition. The item generics of a const / associated type are re-printed as `#ty_generics` (`itemGenerics`):
+    identifiers only — see `C01_item_generics_counterexample`. -/
+theorem C01_main_items_delegate (tr : T) (idx : Nat) (g : T × ABG × List Blk) (m : T)
+    (hm : mainImplOfTrait tr idx g = .ok m) :
+    ∃ tp tname href items,
+      implTraitPath (firstItem_inh g) = some tp ∧ lastSegIdentOf tp = some tname ∧
+      href = mainHrefOf_it tname idx g.2.1 tp ∧ mainHref_inh m = some href ∧
+      ((traitArgsOf_it tp = [] ∧ items = traitItemsOf_it tr) ∨
+       (∃ am, mainArgMap_it tr tp = some am ∧ sbL am (traitItemsOf_it tr) = some items)) ∧
+      items.length = (traitItemsOf_it tr).length ∧ (implItems m).length = (traitItemsOf_it tr).length ∧
+      ∀ (i : Nat) (h0 : i < (traitItemsOf_it tr).length) (h1 : i < items.length) (h2 : i < (implItems m).length),
+        delegates_it href items[i] (implItems m)[i] = true ∧
+        itemKey_it (implItems m)[i] = itemKey_it items[i] ∧
+        (traitItemNamed_it (traitItemsOf_it tr)[i] = true →
+          itemKey_it (implItems m)[i] = itemKey_it (traitItemsOf_it tr)[i]) := by
+  obtain ⟨first, rest, tp, tname, targs, gen, items, hg, hp, hlast, hres, hhref, hlen, hall⟩ := main_items_delegate_it hm
+  have hfirst : firstItem_inh g = first.item := by simp [firstItem_inh, hg]
+  have hrel := resolveMainTrait_items_it hlast hres
+  have hil : items.length = (traitItemsOf_it tr).length := by
+    rcases hrel with ⟨_, rfl⟩ | ⟨_, _, am, _, _, _, hsb⟩
+    · rfl
+    · exact (sbL_get_it hsb).1
+  refine ⟨tp, tname, _, items, by rw [hfirst]; exact hp, by simp [lastSegIdentOf, hlast], rfl, hhref, ?_, hil,
+    by rw [hlen, hil], ?_⟩
+  · rcases hrel with ⟨rfl, rfl⟩ | ⟨c, args, am, _, _, ham, hsb⟩
+    · exact Or.inl ⟨by simp [traitArgsOf_it, hlast, noArgs], rfl⟩
+    · exact Or.inr ⟨am, ham, hsb⟩
+  · intro i h0 h1 h2
+    have hd := hall i h1 h2
+    refine ⟨hd, delegates_key_it hd, fun hn => ?_⟩
+    rw [delegates_key_it hd]
+    rcases hrel with ⟨_, rfl⟩ | ⟨_, _, am, _, _, _, hsb⟩
+    · rfl
+    · exact sbT_itemKey_it hn ((sbL_get_it hsb).2 i h0 h1)
+
+/-- the trait name the first block's trait path uses is the name of the trait definition (what validation,
+    `validateTraitImpls`, checks first) -/
+def traitNameMatches_it (tr : T) (g : T × ABG × List Blk) : Bool :=
+  (implTraitPath (firstItem_inh g)).bind lastSegIdentOf == some (traitName_inh tr)
+
+/-- (1–3 combined) ITEMS END TO END, for the model's whole expansion of a well-formed family of trait mode. With the
+    association lists `implItemAssoc_it` (name ↦ item an impl block defines) and `traitDefaultAssoc_it` (name ↦ trait item
+    that has a default; a name is `const X` / `type X` / `fn x`):
+    * resolution of item `x` in the helper program — the `i`-th helper impl's own item, else the helper trait's default —
+      is the specified item — the `i`-th member's own item, else the trait's default (`genItem … = specItem …`), so a
+      trait default is used exactly when the member does not override it;
+    * the main impl's items all delegate to `<Self as href>::…` (`C01_main_items_delegate`), and the helper reference
+      `href` its where-clause names refers, by name, to the helper trait `ht` whenever the family's trait path names the
+      trait definition (`traitNameMatches_it`, executable, guaranteed by validation). -/
+theorem C01_items_end_to_end (tr : T) (idx : Nat) (g : T × ABG × List Blk) (ht : T) (hs : List T) (m : T)
+    (hht : helperTraitOfTrait tr idx g.2.1.idents.length = some ht) (hh : helperImpls idx g = some hs)
+    (hm : mainImplOfTrait tr idx g = .ok m) (hwf : expandWF g = true) :
+    hs.length = g.2.2.length ∧
+    (∀ (i : Nat) (h1 : i < g.2.2.length) (h2 : i < hs.length) (x : String),
+      genItem (implItemAssoc_it hs[i]) (traitDefaultAssoc_it ht) x =
+        specItem (implItemAssoc_it g.2.2[i].item) (traitDefaultAssoc_it tr) x ∧
+      (assoc (implItemAssoc_it g.2.2[i].item) x = none →
+        genItem (implItemAssoc_it hs[i]) (traitDefaultAssoc_it ht) x = assoc (traitDefaultAssoc_it tr) x)) ∧
+    ∃ href, mainHref_inh m = some href ∧
+      (traitNameMatches_it tr g = true → XOK.segIdent (XOK.lastSeg href) = traitName_inh ht) := by
+  obtain ⟨tp, tname, href, items, hp, hname, rfl, hhref, _⟩ := C01_main_items_delegate tr idx g m hm
+  have htr : inherentFamily_inh g = false := by
+    unfold inherentFamily_inh
+    unfold firstItem_inh at hp
+    split
+    · next first rest hg => rw [hg] at hp; simp only at hp; rw [hp]; rfl
+    · rfl
+  obtain ⟨hlen, hall⟩ := C01_helper_impls_keep_items idx g hs hh htr hwf
+  obtain ⟨_, _, hdef, _, _, _, _, _, _, _, hnm, _⟩ := C01_helper_trait_keeps_items tr idx _ ht hht
+  refine ⟨hlen, ?_, _, hhref, ?_⟩
+  · intro i h1 h2 x
+    obtain ⟨_, hitems, _⟩ := hall i h1 h2
+    exact C01_item_of_selected_block _ _ _ _ (by simp only [implItemAssoc_it, hitems]) hdef x
+  · intro hmatch
+    simp only [traitNameMatches_it, hp, Option.bind_some, hname, beq_iff_eq, Option.some.injEq] at hmatch
+    rw [hnm, ← hmatch]
+    simp [mainHrefOf_it, helperRef, XOK.lastSeg, XOK.segsOf, XOK.segIdent, pathNode, tList, seg, tIdent, XOK.kid, XOK.kids,
+      XOK.lastOf, XOK.atoms]
+
+namespace ExIt
+/-! trees for the closed examples of the item-level theorems (shapes as `syn` prints them, tokens dropped) -/
+open Ex11
+def ltNode (x : String) : T := .node "Lifetime" [] [.node "Ident" [x] []]
+def ltParam (x : String) : T := .node "GenericParam::Lifetime" [] [.node "LifetimeParam" [] [attrs, ltNode x, leaf "None", .node "List" [] []]]
+def constParam (x : String) (ty : T) : T :=
+  .node "GenericParam::Const" [] [.node "ConstParam" [] [attrs, .node "Ident" [x] [], ty, leaf "None", leaf "None"]]
+def ltArg (x : String) : T := .node "GenericArgument::Lifetime" [] [ltNode x]
+def tyArg (t : T) : T := .node "GenericArgument::Type" [] [t]
+def lit (n : String) : T := .node "Expr::Lit" [] [attrs, .node "Lit::Int" [] [.node "Atom" [n] []]]
+def stmtExpr (e : T) : T := .node "Stmt::Expr" [] [e, .node "IgnL" [] [leaf "None"]]
+def blockOf (stmts : List T) : T := .node "Block" [] [.node "List" [] stmts]
+def blockExpr (n : String) : T := .node "Expr::Block" [] [attrs, leaf "None", blockOf [stmtExpr (lit n)]]
+def constArg (e : T) : T := .node "GenericArgument::Const" [] [e]
+def tyS (x : String) : T := Ex11.tyPath [Ex11.seg x]
+def refTy (lt : String) (elem : T) : T := .node "Type::Reference" [] [.node "Some" [] [ltNode lt], leaf "None", elem]
+def arrTy (elem len : T) : T := .node "Type::Array" [] [elem, len]
+def exprIdent (x : String) : T := .node "Expr::Path" [] [attrs, leaf "None", Ex11.path [Ex11.seg x]]
+def emptyGen : T := .node "Generics" [] [leaf "None", .node "List" [] [], leaf "None", leaf "None"]
+def recv : T := .node "FnArg::Receiver" [] [attrs, .node "Some" [] [leaf "None"], leaf "None", leaf "Type::Reference"]
+def typedArg (x : String) (ty : T) : T :=
+  .node "FnArg::Typed" [] [.node "PatType" [] [attrs, .node "Pat::Ident" [] [attrs, leaf "None", leaf "None", .node "Ident" [x] [], leaf "None"], ty]]
+def sig (name : String) (inputs : List T) (out : T) : T :=
+  .node "Signature" [] [leaf "None", leaf "None", leaf "None", leaf "None", .node "Ident" [name] [], emptyGen, .node "List" [] inputs, leaf "None", out]
+def retTy (t : T) : T := .node "ReturnType::Type" [] [t]
+def loopBody : T := blockOf [stmtExpr (.node "Expr::Loop" [] [attrs, leaf "None", blockOf []])]
+def tConst (name : String) (ty dflt : T) : T := .node "TraitItem::Const" [] [attrs, .node "Ident" [name] [], emptyGen, ty, dflt]
+def tType (name : String) (dflt : T) : T := .node "TraitItem::Type" [] [attrs, .node "Ident" [name] [], emptyGen, leaf "None", .node "List" [] [], dflt]
+def tFn (sg dflt semi : T) : T := .node "TraitItem::Fn" [] [attrs, sg, dflt, semi]
+def inh : T := leaf "Visibility::Inherited"
+def iConst (name : String) (ty e : T) : T := .node "ImplItem::Const" [] [attrs, inh, leaf "None", .node "Ident" [name] [], emptyGen, ty, e]
+def iType (name : String) (ty : T) : T := .node "ImplItem::Type" [] [attrs, inh, leaf "None", .node "Ident" [name] [], emptyGen, ty]
+def iFn (sg body : T) : T := .node "ImplItem::Fn" [] [attrs, inh, leaf "None", sg, body]
+def kitaPath (args : List T) : T :=
+  Ex11.path [.node "PathSegment" [] [.node "Ident" ["Kita"] [], .node "PathArguments::AngleBracketed" [] [.node "Ign" [] [leaf "None"], .node "List" [] args]]]
+/-- `trait Kita<'a, U, const N: usize> { const C: usize; type Out; fn get(&self, x: &'a U) -> [U; N] { loop {} } }` -/
+def traitDef : T := .node "ItemTrait" [] [attrs, inh, leaf "None", leaf "None", leaf "None", .node "Ident" ["Kita"] [],
+  .node "Generics" [] [leaf "Some", .node "List" [] [ltParam "a", tyParam "U" [], constParam "N" (tyS "usize")], leaf "Some", leaf "None"],
+  leaf "None", .node "List" [] [],
+  .node "List" [] [tConst "C" (tyS "usize") (leaf "None"), tType "Out" (leaf "None"),
+    tFn (sig "get" [recv, typedArg "x" (refTy "a" (tyS "U"))] (retTy (arrTy (tyS "U") (exprIdent "N")))) (.node "Some" [] [loopBody]) (leaf "None")]]
+def member (grp : String) (items : List T) : T :=
+  .node "ItemImpl" [] [attrs, leaf "None", leaf "None",
+    .node "Generics" [] [leaf "Some", .node "List" [] [ltParam "x", tyParam "T" [traitBound (dispatch grp)]], leaf "Some", leaf "None"],
+    .node "Some" [] [.node "Tuple" [] [leaf "None", kitaPath [ltArg "x", tyArg (vecOf tT), constArg (blockExpr "2")]]],
+    tT, .node "List" [] items]
+/-- `impl<'x, T: Dispatch<Group = GroupA>> Kita<'x, Vec<T>, { 2 }> for T { const C: usize = 1; type Out = u8;
+      fn get(&self, x: &'x Vec<T>) -> [Vec<T>; 2] { loop {} } }` -/
+def memberA : T := member "GroupA" [iConst "C" (tyS "usize") (lit "1"), iType "Out" (tyS "u8"),
+  iFn (sig "get" [recv, typedArg "x" (refTy "x" (vecOf tT))] (retTy (arrTy (vecOf tT) (lit "2")))) loopBody]
+/-- `impl<'x, T: Dispatch<Group = GroupB>> Kita<'x, Vec<T>, { 2 }> for T { const C: usize = 2; type Out = u16; }` -/
+def memberB : T := member "GroupB" [iConst "C" (tyS "usize") (lit "2"), iType "Out" (tyS "u16")]
+
+/-- run the front end and the three generators of trait mode on the first family and apply a Boolean test -/
+def run (tr : T) (items : List T) (f : (T × ABG × List Blk) → T → List T → T → Bool) : Bool :=
+  match parseGroups items with
+  | .ok (g :: _) =>
+      (match helperTraitOfTrait tr 0 g.2.1.idents.length, helperImpls 0 g, mainImplOfTrait tr 0 g with
+       | some ht, some hs, .ok m => f g ht hs m
+       | _, _, _ => false)
+  | _ => false
+/-- `trait Kita { type Out<X: Clone>; }` -/
+def gatTrait : T := .node "ItemTrait" [] [attrs, inh, leaf "None", leaf "None", leaf "None", .node "Ident" ["Kita"] [], emptyGen,
+  leaf "None", .node "List" [] [],
+  .node "List" [] [.node "TraitItem::Type" [] [attrs, .node "Ident" ["Out"] [],
+    .node "Generics" [] [leaf "Some", .node "List" [] [tyParam "X" [traitBound (Ex11.path [Ex11.seg "Clone"])]], leaf "Some", leaf "None"],
+    leaf "None", .node "List" [] [], leaf "None"]]]
+/-- `impl<T: Dispatch<Group = g>> Kita for T { type Out<X: Clone> = X; }` -/
+def gatMember (grp : String) : T :=
+  .node "ItemImpl" [] [attrs, leaf "None", leaf "None",
+    .node "Generics" [] [leaf "Some", .node "List" [] [tyParam "T" [traitBound (dispatch grp)]], leaf "Some", leaf "None"],
+    .node "Some" [] [.node "Tuple" [] [leaf "None", Ex11.path [Ex11.seg "Kita"]]], tT,
+    .node "List" [] [.node "ImplItem::Type" [] [attrs, inh, leaf "None", .node "Ident" ["Out"] [],
+      .node "Generics" [] [leaf "Some", .node "List" [] [tyParam "X" [traitBound (Ex11.path [Ex11.seg "Clone"])]], leaf "Some", leaf "None"],
+      tyS "X"]]]
+/-- `impl<params> Kita<args> for T { items }` -/
+def memberOf (params args items : List T) : T :=
+  .node "ItemImpl" [] [attrs, leaf "None", leaf "None",
+    .node "Generics" [] [leaf "Some", .node "List" [] params, leaf "Some", leaf "None"],
+    .node "Some" [] [.node "Tuple" [] [leaf "None", kitaPath args]], tT, .node "List" [] items]
+def unitBody : T := blockOf []
+def semi : T := .node "Some" ["Semi"] []
+/-- D17: `trait Kita<U, V = u32> { fn f(&self, x: V); }` -/
+def d17Trait : T := .node "ItemTrait" [] [attrs, inh, leaf "None", leaf "None", leaf "None", .node "Ident" ["Kita"] [],
+  .node "Generics" [] [leaf "Some", .node "List" [] [tyParam "U" [],
+    .node "GenericParam::Type" [] [.node "TypeParam" [] [attrs, .node "Ident" ["V"] [], leaf "None", .node "List" [] [],
+      .node "Some" ["Eq"] [], .node "Some" [] [tyS "u32"]]]], leaf "Some", leaf "None"],
+  leaf "None", .node "List" [] [],
+  .node "List" [] [tFn (sig "f" [recv, typedArg "x" (tyS "V")] (leaf "ReturnType::Default")) (leaf "None") semi]]
+/-- `impl<T: Dispatch<Group = g>> Kita<T> for T { fn f(&self, x: u32) {} }`: the defaulted argument is omitted -/
+def d17Member (grp : String) : T := memberOf [tyParam "T" [traitBound (dispatch grp)]] [tyArg tT]
+  [iFn (sig "f" [recv, typedArg "x" (tyS "u32")] (leaf "ReturnType::Default")) unitBody]
+/-- D24: `trait Kita<const N: usize> { fn f(&self) -> [u8; N]; }` -/
+def d24Trait : T := .node "ItemTrait" [] [attrs, inh, leaf "None", leaf "None", leaf "None", .node "Ident" ["Kita"] [],
+  .node "Generics" [] [leaf "Some", .node "List" [] [constParam "N" (tyS "usize")], leaf "Some", leaf "None"],
+  leaf "None", .node "List" [] [],
+  .node "List" [] [tFn (sig "f" [recv] (retTy (arrTy (tyS "u8") (exprIdent "N")))) (leaf "None") semi]]
+/-- `impl<T: Dispatch<Group = g>, const M: usize> Kita<M> for T { fn f(&self) -> [u8; M] { loop {} } }`: the const
+    argument is a bare identifier, which `syn` parses as a type argument -/
+def d24Member (grp : String) : T := memberOf [tyParam "T" [traitBound (dispatch grp)], constParam "M" (tyS "usize")] [tyArg (tyS "M")]
+  [iFn (sig "f" [recv] (retTy (arrTy (tyS "u8") (exprIdent "M")))) loopBody]
+/-- … and with the braced spelling `Kita<{ M }>` -/
+def d24MemberBraced (grp : String) : T := memberOf [tyParam "T" [traitBound (dispatch grp)], constParam "M" (tyS "usize")]
+  [constArg (.node "Expr::Block" [] [attrs, leaf "None", blockOf [stmtExpr (exprIdent "M")]])]
+  [iFn (sig "f" [recv] (retTy (arrTy (tyS "u8") (exprIdent "M")))) loopBody]
+end ExIt
+
+section ItemExamples
+set_option maxRecDepth 1000000
+open ExIt
+
+/-- non-vacuity of (1)–(3) and of `C01_items_end_to_end`: for
+    `trait Kita<'a, U, const N: usize> { const C: usize; type Out; fn get(&self, x: &'a U) -> [U; N] { loop {} } }` and the
+    two blocks `impl<'x, T: Dispatch<Group = GroupA>> Kita<'x, Vec<T>, { 2 }> for T { const C …; type Out …; fn get … }`
+    (overrides the default) and `… GroupB … { const C …; type Out …; }` (inherits it): one family with two members, the
+    three generators succeed, every side condition holds; the trait has three named items and one default (`fn get`);
+    resolution of `fn get` in the helper program is the first member's own function for member 0 and the trait's default
+    for member 1; the main impl has the items `C`, `Out`, `get` in this order and the signature of `get` is
+    `fn get(&self, x: &'_ŠČ0 Vec<_ŠČ1>) -> [Vec<_ŠČ1>; { 2 }]` (lifetime, type and const parameter replaced by the family's
+    arguments); the helper trait `_Kita0` declares `'a, _ŠČ3: ?Sized, U, N` and is the trait the main impl's `Self:` bound names -/
+theorem C01_items_example : ExIt.run traitDef [memberA, memberB] (fun g ht hs m =>
+    g.2.2.length == 2 && hs.length == 2 && expandWF g && !inherentFamily_inh g && traitNameMatches_it traitDef g &&
+    genericsShaped_it (XOK.kid traitDef 6) &&
+    (traitItemsOf_it traitDef).all traitItemNamed_it && (traitItemsOf_it traitDef).length == 3 &&
+    (traitDefaultAssoc_it traitDef).map (fun p => p.1) == ["fn get"] &&
+    g.2.2.map (fun b => (implItemAssoc_it b.item).map (fun p => p.1)) == [["const C", "type Out", "fn get"], ["const C", "type Out"]] &&
+    genItem (implItemAssoc_it (hs.getD 0 XOK.dummy)) (traitDefaultAssoc_it ht) "fn get" == (g.2.2.head?.bind (fun b => (implItems b.item)[2]?)) &&
+    genItem (implItemAssoc_it (hs.getD 1 XOK.dummy)) (traitDefaultAssoc_it ht) "fn get" == (traitItemsOf_it traitDef)[2]? &&
+    (implItems m).map itemKey_it == [("const", .node "Ident" ["C"] []), ("type", .node "Ident" ["Out"] []), ("fn", .node "Ident" ["get"] [])] &&
+    ((implItems m)[2]?.map (fun it => XOK.kid it 3)) ==
+      some (sig "get" [recv, typedArg "x" (refTy "_ŠČ0" (Ex11.vecOf (.tparam "_ŠČ1")))] (retTy (arrTy (Ex11.vecOf (.tparam "_ŠČ1")) (blockExpr "2")))) &&
+    (traitParams_inh ht).map pname_inh == ["a", "_ŠČ3", "U", "N"] &&
+    traitName_inh ht == "_Kita0" && (mainHref_inh m).map (fun h => XOK.segIdent (XOK.lastSeg h)) == some "_Kita0") = true := by
+  with_unfolding_all decide
+
+/-- the clause "the generated item has the trait item's signature" is FALSE for the generics of an associated type (and of
+    a const): they are re-printed as `#ty_generics` (`itemGenerics`: identifiers only), and the delegation passes no
+    generic argument. Witness: `trait Kita { type Out<X: Clone>; }` with two blocks
+    `impl<T: Dispatch<Group = g>> Kita for T { type Out<X: Clone> = X; }` — the generators succeed, the helper trait and
+    both helper impls keep `Out<X: Clone>`, but the main impl has `type Out<X> = <Self as _Kita0<…>>::Out;`: other item
+    generics than the trait item (the bound is gone) and no `<X>` after `Out`. (rustc rejects this expansion — missing
+    generics for the associated type — so generic associated types are unsupported rather than silently wrong.) The
+    strongest true statement is `delegates_it` in `C01_main_items_delegate`: the generics are `itemGenerics` of the trait's. -/
+theorem C01_item_generics_counterexample : ExIt.run gatTrait [gatMember "GroupA", gatMember "GroupB"] (fun g ht hs m =>
+    g.2.2.length == 2 && expandWF g && (traitItemsOf_it gatTrait).length == 1 && (implItems m).length == 1 &&
+    XOK.kid ht 9 == XOK.kid gatTrait 9 &&
+    hs.all (fun h => (implItems h).map (fun it => XOK.kid it 4) == (traitItemsOf_it gatTrait).map (fun it => XOK.kid it 2)) &&
+    (implItems m).map (fun it => XOK.kid it 4) != (traitItemsOf_it gatTrait).map (fun it => XOK.kid it 2) &&
+    (implItems m).map (fun it => genericsParams (XOK.kid it 4)) == [[Ex11.tyParam "X" []]] &&
+    (implItems m).map (fun it => XOK.kid (XOK.lastSeg (XOK.kid (XOK.kid it 5) 1)) 1) == [noArgs]) = true := by
+  with_unfolding_all decide
+
+end ItemExamples
+
+/-- (1–3 as one executable predicate) `itemsOK_it tr idx g ht hs m` (Lemmas/ExpandItems.lean) reads the given trees only:
+    the helper trait `ht` is `tr` with nothing but the visibility (`pub`), the name (`_<Trait><idx>`) and the generics
+    (`helperGenerics`) changed; helper impl `i` is member `i` with nothing but the trait reference changed (pairwise, same
+    number); the main impl's `Self:` bound names `_<Trait><idx><lifetimes, key projections, other arguments of the family's
+    trait path>` and its item list is, one by one and with nothing else, the delegation (`delegates_it`) of the resolved
+    trait items to that reference. It accepts the model's expansion of every well-formed family of trait mode — so it can
+    be evaluated on the REAL expansion of every generated case, like `expandOKB`. -/
+theorem C01_itemsOK_of_expand (tr : T) (idx : Nat) (g : T × ABG × List Blk) (ht : T) (hs : List T) (m : T)
+    (hht : helperTraitOfTrait tr idx g.2.1.idents.length = some ht) (hh : helperImpls idx g = some hs)
+    (hm : mainImplOfTrait tr idx g = .ok m) (hwf : expandWF g = true) :
+    itemsOK_it tr idx g ht hs m = true :=
+  itemsOK_of_expand_it hht hh hm hwf
+
+section ItemsOKExamples
+set_option maxRecDepth 1000000
+open ExIt
+
+/-- `mapImplItems` for the examples: the impl with its item list replaced -/
+def ExIt.withItems (f : List T → List T) : T → T
+  | .node "ItemImpl" [] [a, d, u, g, tr, s, .node "List" [] items] => .node "ItemImpl" [] [a, d, u, g, tr, s, .node "List" [] (f items)]
+  | t => t
+
+/-- non-vacuity of `C01_itemsOK_of_expand`, and the predicate is not vacuous: on the example of `C01_items_example` it
+    accepts the expansion, and rejects it when the main impl's items are reordered, when one of them is dropped, when the
+    second helper impl is given the first member's items, and when the helper trait loses its last item (the default) -/
+theorem C01_itemsOK_example : ExIt.run traitDef [memberA, memberB] (fun g ht hs m =>
+    expandWF g && itemsOK_it traitDef 0 g ht hs m &&
+    !itemsOK_it traitDef 0 g ht hs (ExIt.withItems List.reverse m) &&
+    !itemsOK_it traitDef 0 g ht hs (ExIt.withItems List.dropLast m) &&
+    !itemsOK_it traitDef 0 g ht (hs.map (fun h => ExIt.withItems (fun _ => implItems (hs.getD 0 XOK.dummy)) h)) m &&
+    !itemsOK_it traitDef 0 g (helperTraitOfTrait (match traitDef with
+        | .node k as [a0, a1, a2, a3, a4, a5, a6, a7, a8, .node "List" [] its] => .node k as [a0, a1, a2, a3, a4, a5, a6, a7, a8, .node "List" [] its.dropLast]
+        | t => t) 0 g.2.1.idents.length |>.getD XOK.dummy) hs m) = true := by
+  with_unfolding_all decide
+
+end ItemsOKExamples
 
 end DI
